@@ -432,6 +432,7 @@ func check(c Case) (o ev.Outcome) {
 func genSet(t *rapid.T) (*ymodel.Set, []PathQ) {
 	o := ymodel.DefaultOpts()
 	o.Budget = 18
+	o.Posix = true // posix-pattern statements of openconfig-extensions in string types
 	set, _ := schema.Generate(t, o)
 	schema.AddAugments(t, set, 0, 2)
 	schema.AddIdentities(t, set, 5)
